@@ -17,11 +17,15 @@ def crc_len(crc):
     return 0
 
 
+def directive_body(direction, mode, crc, large, segctrl, we, ws, src, seq, dst, params):
+    """H ++ params: fixed header of a file directive (segment metadata flag 0) whose data-field length is the number of octets
+    after the header (directive code, parameters and CRC trailer)"""
+    return pdu_header_octets(FILE_DIRECTIVE, direction, mode, crc, large, len(params) + crc_len(crc), segctrl, 0, we, ws, src, seq, dst) + params
+
+
 def directive_pdu(direction, mode, crc, large, segctrl, we, ws, src, seq, dst, params):
-    """H ++ params ++ T: fixed header of a file directive (segment metadata flag 0) whose data-field length is the number
-    of octets after the header (directive code, parameters and CRC trailer), then the trailer iff the CRC flag"""
-    return with_crc_trailer(crc, pdu_header_octets(FILE_DIRECTIVE, direction, mode, crc, large, len(params) + crc_len(crc),
-                                                   segctrl, 0, we, ws, src, seq, dst) + params)
+    """H ++ params ++ T: the trailer T (CRC-16 of everything before it) iff the CRC flag"""
+    return with_crc_trailer(crc, directive_body(direction, mode, crc, large, segctrl, we, ws, src, seq, dst, params))
 
 
 def finished_params(cc, delivery, file_status, responses, fault_location):
